@@ -20,6 +20,16 @@ From Srtla Require Import Base Constants FConstants.
 From Srtla Require Export Run_Sel.
 Local Open Scope Z_scope.
 
+(** the numbers the property text names, as literals (so that an edited constant in the code is
+    judged against the text, not against itself) *)
+Definition SPEC_SWITCH : float := 0x1.199999999999ap+0%float.     (* 1.10 *)
+Definition SPEC_GATE : float := 0x1.47ae147ae147bp-6%float.       (* 2 %  *)
+Definition SPEC_WARM : float := 0x1.999999999999ap-1%float.       (* 80 % *)
+Definition SPEC_CAP_FLOOR : float := 0x1.999999999999ap-4%float.  (* 0.1  *)
+Definition SPEC_Q_LO : float := 0x1.6666666666666p-2%float.       (* 0.35 *)
+Definition SPEC_Q_HI : float := (0x1.199999999999ap+0 * 0x1.07ae147ae147bp+0)%float.  (* 1.1 x 1.03 *)
+Definition spec_q_rangeb (q : float) : bool := (SPEC_Q_LO <=? q)%float && (q <=? SPEC_Q_HI)%float.
+
 (** ---- the oracle ------------------------------------------------------------------------------ *)
 (** liveness: a connected link times out on receive silence; a never-established link is covered by
     its start-up grace; otherwise a disconnected link is timed out unless it was heard recently *)
@@ -53,7 +63,7 @@ Definition spec_candidate (au : bool) (now : Z) (c : link) : bool :=
 Definition spec_soft_cap (c : link) : float :=
   if (l_cct c =? 0) || (l_bps c <=? 0)%float then 1%float
   else let t := f64_of_u64 (l_cct c) in
-       f64_clamp CC_SOFT_CAP_FLOOR 1%float (f64_max (t - l_bps c) 0%float / t)%float.
+       f64_clamp SPEC_CAP_FLOOR 1%float (f64_max (t - l_bps c) 0%float / t)%float.
 
 (** quality multiplier, with the 50 ms cache *)
 Definition spec_quality (now : Z) (e : float) (c : link) : float :=
@@ -76,8 +86,8 @@ Definition spec_base (c : link) : Z :=
   else -1.
 
 Definition spec_score (au quality : bool) (now : Z) (e : float) (c : link) : float :=
-  let phase := match l_phase c with PReg => 0%float | PWarm => 0x1.999999999999ap-1%float | _ => 1%float end in
-  let gate := if au && (l_weak c || l_lossdeg c) then GATED_LINK_PENALTY else 1%float in
+  let phase := match l_phase c with PReg => 0%float | PWarm => SPEC_WARM | _ => 1%float end in
+  let gate := if au && (l_weak c || l_lossdeg c) then SPEC_GATE else 1%float in
   let b := (f64_of_i32 (spec_base c) * phase)%float in
   if quality then (b * spec_quality now e c * spec_soft_cap c * gate)%float
   else (b * spec_soft_cap c * gate)%float.
@@ -98,7 +108,7 @@ Definition is_max (scs : list (option float)) (x : float) : bool :=
   forallb (fun o => match o with Some s => negb (x <? s)%float | None => true end) scs.
 (** every candidate stays below the switching threshold of the current score *)
 Definition all_below (scs : list (option float)) (cur : float) : bool :=
-  forallb (fun o => match o with Some s => (s <? cur * SWITCH_THRESHOLD)%float | None => true end) scs.
+  forallb (fun o => match o with Some s => (s <? cur * SPEC_SWITCH)%float | None => true end) scs.
 
 (** the pre-state as the selector loop saw it: gate flags and timeout as reported after the call *)
 Definition gated_view (s : list link) (hs : list hid) : list link :=
@@ -117,7 +127,7 @@ Definition mon_select (s : list link) (last : option nat) (now : Z) (cfg : confi
     let g := gated_view s (o_hid o) in
     let au := existsb (spec_unconstrained now) g in
     let scs := spec_scores au (enhanced_quality cfg) now g exps in
-    let c5 := forallb (fun h => q_rangeb (h_qmult h)) (o_hid o) in
+    let c5 := forallb (fun h => spec_q_rangeb (h_qmult h)) (o_hid o) in
     let cur := match last with Some l => nth_score scs l | None => None end in
     match o_res o with
     | None => if c5 then 0%N else 5%N
